@@ -192,10 +192,12 @@ class ExprRewriter(ast.NodeTransformer, EmitterMixin):
         node,
         call_context=False,
         orig_node_id=None,
+        orig_node=None,
     ):
         if self._inside_attrsub_load_chain:
             return node
-        orig_node = node
+        # `node` may already be wrapped in emit calls: conditions must be asked about the original node
+        orig_node = node if orig_node is None else orig_node
         orig_node_id = orig_node_id or id(orig_node)
 
         ctx = getattr(orig_node, "ctx", ast.Load())
@@ -286,7 +288,7 @@ class ExprRewriter(ast.NodeTransformer, EmitterMixin):
                     )
 
         return self._maybe_wrap_symbol_in_before_after_tracing(
-            node, orig_node_id=orig_node_id
+            node, orig_node_id=orig_node_id, orig_node=orig_node
         )
 
     def _get_replacement_args(self, args, keywords: bool, compute_is_last: bool):
@@ -391,7 +393,7 @@ class ExprRewriter(ast.NodeTransformer, EmitterMixin):
                 del ret_as_call
 
         return self._maybe_wrap_symbol_in_before_after_tracing(
-            ret, call_context=True, orig_node_id=orig_node_id
+            ret, call_context=True, orig_node_id=orig_node_id, orig_node=node
         )
 
     @fast.location_of_arg
